@@ -53,6 +53,7 @@ type Contract struct {
 	Ensures  []*Clause
 	Modifies []*SExpr
 	ModText  []string
+	ModCond  []*SExpr // optional guard per entry ("modifies X if COND", externs only)
 	HasMod   bool
 	Loops    map[int]*LoopSpec
 	NoFatal  bool
@@ -360,12 +361,25 @@ func (cs *Contracts) parseFile(p *Program, pkgPath, file, src string) error {
 				if part == "" {
 					continue
 				}
+				var cond *SExpr
+				if k := strings.Index(part, " if "); k >= 0 {
+					if !cur.Extern {
+						return fail(rc, "conditional modifies is only available on extern contracts")
+					}
+					c, err := parseSpecExpr(strings.TrimSpace(part[k+4:]))
+					if err != nil {
+						return fail(rc, "%v", err)
+					}
+					cond = c
+					part = strings.TrimSpace(part[:k])
+				}
 				e, err := parseSpecExpr(part)
 				if err != nil {
 					return fail(rc, "%v", err)
 				}
 				cur.Modifies = append(cur.Modifies, e)
 				cur.ModText = append(cur.ModText, part)
+				cur.ModCond = append(cur.ModCond, cond)
 			}
 		case "loop":
 			if cur == nil {
@@ -610,7 +624,7 @@ func (cs *Contracts) parseHeader(p *Program, c *Contract, text string) error {
 			star = "*"
 			t = t[1:]
 		}
-		if i := strings.Index(t, "."); i >= 0 {
+		if i := strings.LastIndex(t, "."); i >= 0 {
 			pkgPath = resolvePkgName(p, c.PkgPath, t[:i])
 			t = t[i+1:]
 		}
@@ -628,7 +642,14 @@ func (cs *Contracts) parseHeader(p *Program, c *Contract, text string) error {
 		// the function name may contain type arguments and anonymous suffixes; a leading
 		// "pkg." qualifier selects another package
 		base := name
-		if i := strings.Index(base, "."); i >= 0 && !strings.Contains(base[:i], "[") {
+		cut := base
+		if k := strings.Index(cut, "["); k >= 0 {
+			cut = cut[:k]
+		}
+		if k := strings.Index(cut, "$"); k >= 0 {
+			cut = cut[:k]
+		}
+		if i := strings.LastIndex(cut, "."); i >= 0 {
 			pkgPath = resolvePkgName(p, c.PkgPath, base[:i])
 			base = base[i+1:]
 		}
